@@ -42,7 +42,12 @@ func (pass *DisjunctionOfAnonymousStructsToExplicit) processDisjunction(visitor 
 			continue
 		}
 
-		branchName := pass.generateBranchName(branch, i)
+		// the name must not be the one of an existing object, nor of a branch of another disjunction
+		suggestedName := pass.generateBranchName(branch, i)
+		branchName := suggestedName
+		for suffix := 2; schema.HasObject(branchName) || visitor.HasNewObject(ast.RefType{ReferredPkg: schema.Package, ReferredType: branchName}); suffix++ {
+			branchName = fmt.Sprintf("%s%d", suggestedName, suffix)
+		}
 
 		newType, err := visitor.VisitType(schema, branch)
 		if err != nil {
